@@ -24,6 +24,52 @@
   * The interim theorems (sibling context of `both`, `unfiltered` re-installs
     the replaced filter) are kept.
 
+  The consequence clause ("the result and the diagnostics of a later sibling are
+  the same whether or not an earlier sibling was wrapped"):
+
+  * `C09_sibling_independent`: in `both` / `left` / `right` / `center` the later
+    sibling's outcome is `run b` on (the lexer the earlier sibling returned, the
+    combinator's OWN context, the world the earlier sibling left) and on nothing
+    else.  Two arbitrary earlier siblings `a`, `a'` (wrapped or not, even started
+    from different lexers and worlds) that return the same lexer and world give
+    the same outcome of `b` — same error or panic, same returned lexer, same
+    world, same value of `b`; only `a`'s own value differs in the pair
+    (`thenWith f r` = `r` with `f` applied to the value if `r` is a success).
+    The lexer handed to `b` has the filter of the combinator's lexer.
+    `C09_sibling_not_run`: if the earlier sibling does not succeed `b` is not run.
+  * `C09_context_independent`: `run` consults the context in exactly two places,
+    `sendError` (in `recover*`, `bracket*`, `list*`) and `probe`; a RETURNED
+    error is never decorated with the context (`Ctx.apply` is used only on the
+    way into the sink and in the probe line).  So for a context-insensitive
+    grammar (`CtxFree g`: no `probe`, and `recover*` / `bracket*` / `list*` only
+    below a `maybe` / `unrecoverable` / antecedent of `implies`) the whole run —
+    success or failure — is the same under every context.
+    `C09_context_sink_only`: a probe-free grammar (`SinkOnly g`) depends only on
+    whether there is a sink.
+  * `C09_unrecoverable_transparent`, `C09_raw_transparent`: for `CtxFree a`,
+    `run (n+1) (unrecoverable a) = run n a` and `run (n+1) (raw a) = run n a`
+    (the wrapper costs one unit of fuel, nothing else; all outcomes), and with
+    the same fuel `m ≥ n+1` on both sides once `n` suffices for `a`.
+    `C09_wrappers_transparent_nosink`: without a sink `unrecoverable` is the
+    identity on every grammar, `raw` on every probe-free one.  The hypotheses
+    are needed: examples at the end (`recover` under a sink: `unrecoverable`
+    turns a reported-and-recovered error into a failure, `raw` changes the
+    reported trail; `probe`).
+  * `C09_wrapped_sibling_same` / `C09_wrapped_sibling_offset`: for `CtxFree a`
+    and EVERY later sibling (context-sensitive ones included), `both`, `left`,
+    `right`, `center` with first parser `unrecoverable a`, `raw a` or `a` are
+    equal (result and world), fuel offsets explicit.
+  * `C09_maybe_transparent`, `C09_maybe_run`: `maybe a` runs `a` WITHOUT the sink;
+    on success same lexer and world (value in `some`), on failure the original
+    lexer value and the world left by the failed attempt (sink log unchanged);
+    the later sibling of a `both` runs from exactly these under the combinator's
+    own context.  The naive "if `a` succeeds under `ctx` then `maybe a` returns
+    what `a` returns" is FALSE for context-sensitive `a`
+    (`C09_maybe_naive_statement_false`; corrected: `C09_maybe_success_same`).
+  * `C09_filter_scope`, `C09_filter_scope_failure`: `filter_with` / `unfiltered`
+    in all outcomes; on failure the error and world are passed on and an
+    alternative sibling runs from the caller's own lexer value.
+
   Lean: `run` is the model of the combinators (TephraModel.Run), checked against
   the Rust on the generated families; `Lexer.filter/metrics/len` are the fields
   of the lexer model.  Unbounded: any grammar, scanner, filter table, lexer
@@ -32,6 +78,8 @@
 import TephraModel.Run
 import TephraProofs.Frame
 import TephraProofs.WorldFrame
+import TephraProofs.Transparent
+import TephraProofs.BracketRefine
 
 namespace Tephra.Props
 open Tephra
@@ -112,6 +160,221 @@ theorem C09_world_frame (R : RunEnv) (n : Nat) (g : G) (lx : Lx) (ctx : Ctx) (W 
     W.log <+: (run R n g lx ctx W).2.log ∧ W.probes <+: (run R n g lx ctx W).2.probes :=
   WorldFrame.run_world_prefix R n g lx ctx W
 
+
+/-! ### the consequence clause: later siblings are unaffected -/
+
+open Tephra.Transparent (CtxFree SinkOnly CF thenWith centerRest)
+
+/-- **Sibling independence.**  Let `a` and `a'` be two earlier siblings — any two
+grammars (`a'` may be `unrecoverable a`, `raw a`, `filter_with k a`,
+`unfiltered a`, `maybe a`, or unrelated), even started from different lexers
+and worlds — that return the same lexer `lx1` and world `W1`.  Then each of
+`both`, `left`, `right`, `center` is, for `a` and for `a'`, the SAME outcome
+`run R n b lx1 ctx W1` of the later sibling (a function of the returned lexer,
+the combinator's own context and the returned world only), post-processed on its
+value alone (`thenWith`): same error / panic, same returned lexer, same world,
+same value of `b`.  For `right` the two runs are literally equal.  The lexer
+`b` starts from carries the filter of the combinator's own lexer. -/
+theorem C09_sibling_independent (R : RunEnv) (n : Nat) (a a' b c : G) (lx lx' lx1 : Lx) (ctx : Ctx)
+    (W W' W1 : World) (v v' : Val)
+    (h : run R n a lx ctx W = (.ok v lx1, W1))
+    (h' : run R n a' lx' ctx W' = (.ok v' lx1, W1)) :
+    (run R (n + 1) (.both a b) lx ctx W = thenWith (.pair v) (run R n b lx1 ctx W1) ∧
+     run R (n + 1) (.both a' b) lx' ctx W' = thenWith (.pair v') (run R n b lx1 ctx W1)) ∧
+    (run R (n + 2) (.left a b) lx ctx W = thenWith (fun _ => v) (run R n b lx1 ctx W1) ∧
+     run R (n + 2) (.left a' b) lx' ctx W' = thenWith (fun _ => v') (run R n b lx1 ctx W1)) ∧
+    (run R (n + 2) (.right a b) lx ctx W = run R n b lx1 ctx W1 ∧
+     run R (n + 2) (.right a' b) lx' ctx W' = run R n b lx1 ctx W1) ∧
+    (run R (n + 1) (.center a b c) lx ctx W = centerRest R n b c lx1 ctx W1 ∧
+     run R (n + 1) (.center a' b c) lx' ctx W' = centerRest R n b c lx1 ctx W1) ∧
+    (run R (n + 1) (.both a b) lx ctx W).2 = (run R (n + 1) (.both a' b) lx' ctx W').2 ∧
+    lx1.filter = lx.filter ∧ lx1.filter = lx'.filter :=
+  ⟨⟨Transparent.both_factor R n a b lx lx1 ctx W W1 v h, Transparent.both_factor R n a' b lx' lx1 ctx W' W1 v' h'⟩,
+   ⟨Transparent.left_factor R n a b lx lx1 ctx W W1 v h, Transparent.left_factor R n a' b lx' lx1 ctx W' W1 v' h'⟩,
+   ⟨Transparent.right_factor R n a b lx lx1 ctx W W1 v h, Transparent.right_factor R n a' b lx' lx1 ctx W' W1 v' h'⟩,
+   ⟨Transparent.center_factor R n a b c lx lx1 ctx W W1 v h,
+    Transparent.center_factor R n a' b c lx' lx1 ctx W' W1 v' h'⟩,
+   by rw [Transparent.both_factor R n a b lx lx1 ctx W W1 v h, Transparent.both_factor R n a' b lx' lx1 ctx W' W1 v' h',
+        Transparent.thenWith_snd, Transparent.thenWith_snd],
+   (Frame.run_frame R n a lx ctx W v lx1 (by rw [h])).1,
+   (Frame.run_frame R n a' lx' ctx W' v' lx1 (by rw [h'])).1⟩
+
+/-- If the earlier sibling does not succeed the later one is not run. -/
+theorem C09_sibling_not_run (R : RunEnv) (n : Nat) (a b : G) (lx : Lx) (ctx : Ctx) (W : World)
+    (h : ∀ v lx1, (run R n a lx ctx W).1 ≠ .ok v lx1) :
+    run R (n + 1) (.both a b) lx ctx W = run R n a lx ctx W :=
+  Transparent.both_stop R n a b lx ctx W h
+
+/-- **Context independence.**  `run` consults the context only in `sendError`
+(`recover*`, `bracket*`, `list*`) and in `probe`; a returned error is never
+decorated with it.  Hence for a context-insensitive grammar (`CtxFree`: no
+`probe`; `recover*` / `bracket*` / `list*` only below `maybe` /
+`unrecoverable`) the run — result, returned lexer, world, error — does not
+depend on the context at all, whatever the outcome. -/
+theorem C09_context_independent (R : RunEnv) (n : Nat) (g : G) (hg : CtxFree g) (lx : Lx) (ctx ctx' : Ctx)
+    (W : World) : run R n g lx ctx W = run R n g lx ctx' W :=
+  Transparent.run_ctxFree R n g hg lx ctx ctx' W
+
+/-- …and a probe-free grammar (`SinkOnly`) depends on the context only through
+the presence of a sink: two sink-less contexts (different chains, locks) give the
+same run. -/
+theorem C09_context_sink_only (R : RunEnv) (n : Nat) (g : G) (hg : SinkOnly g) (lx : Lx) (ctx ctx' : Ctx)
+    (W : World) (h : ctx.sink = false) (h' : ctx'.sink = false) : run R n g lx ctx W = run R n g lx ctx' W :=
+  Transparent.run_sinkOnly R n g hg lx ctx ctx' W h h'
+
+/-- `unrecoverable a` is `a` for context-insensitive `a`: with the exact fuel
+offset (the wrapper costs one unit), and with the same fuel on both sides as
+soon as the fuel suffices for `a`.  Success is not needed: errors, panics agree
+too. -/
+theorem C09_unrecoverable_transparent (R : RunEnv) (n : Nat) (a : G) (ha : CtxFree a) (lx : Lx) (ctx : Ctx)
+    (W : World) :
+    run R (n + 1) (.unrecoverable a) lx ctx W = run R n a lx ctx W ∧
+    ((run R n a lx ctx W).1 ≠ .fuel → ∀ m, n + 1 ≤ m → run R m (.unrecoverable a) lx ctx W = run R m a lx ctx W) :=
+  ⟨Transparent.unrecoverable_eq R n a ha lx ctx W, Transparent.unrecoverable_same_fuel R n a ha lx ctx W⟩
+
+theorem C09_raw_transparent (R : RunEnv) (n : Nat) (a : G) (ha : CtxFree a) (lx : Lx) (ctx : Ctx) (W : World) :
+    run R (n + 1) (.raw a) lx ctx W = run R n a lx ctx W ∧
+    ((run R n a lx ctx W).1 ≠ .fuel → ∀ m, n + 1 ≤ m → run R m (.raw a) lx ctx W = run R m a lx ctx W) :=
+  ⟨Transparent.raw_eq R n a ha lx ctx W, Transparent.raw_same_fuel R n a ha lx ctx W⟩
+
+/-- Without a sink, `unrecoverable` is the identity on EVERY grammar and `raw`
+on every probe-free grammar. -/
+theorem C09_wrappers_transparent_nosink (R : RunEnv) (n : Nat) (a : G) (lx : Lx) (ctx : Ctx) (W : World)
+    (h : ctx.sink = false) :
+    run R (n + 1) (.unrecoverable a) lx ctx W = run R n a lx ctx W ∧
+    (SinkOnly a → run R (n + 1) (.raw a) lx ctx W = run R n a lx ctx W) :=
+  ⟨Transparent.unrecoverable_eq_nosink R n a lx ctx W h, fun ha => Transparent.raw_eq_nosink R n a ha lx ctx W h⟩
+
+/-- **Wrapped sibling = plain sibling.**  For context-insensitive `a` and EVERY
+later sibling `b`, `c` (context-sensitive ones included), once the fuel `n`
+suffices for `a`: with any fuel `m ≥ n + 1` for the first parser, the
+sequencing combinators give identical results and worlds whether the first
+parser is `a`, `unrecoverable a` or `raw a`. -/
+theorem C09_wrapped_sibling_same (R : RunEnv) (n : Nat) (a : G) (ha : CtxFree a) (lx : Lx) (ctx : Ctx) (W : World)
+    (hne : (run R n a lx ctx W).1 ≠ .fuel) (b c : G) (m : Nat) (hm : n + 1 ≤ m) (w : G)
+    (hw : w = .unrecoverable a ∨ w = .raw a) :
+    run R (m + 1) (.both w b) lx ctx W = run R (m + 1) (.both a b) lx ctx W ∧
+    run R (m + 2) (.left w b) lx ctx W = run R (m + 2) (.left a b) lx ctx W ∧
+    run R (m + 2) (.right w b) lx ctx W = run R (m + 2) (.right a b) lx ctx W ∧
+    run R (m + 1) (.center w b c) lx ctx W = run R (m + 1) (.center a b c) lx ctx W := by
+  apply Transparent.seq_congr
+  rcases hw with rfl | rfl
+  · exact Transparent.unrecoverable_same_fuel R n a ha lx ctx W hne m hm
+  · exact Transparent.raw_same_fuel R n a ha lx ctx W hne m hm
+
+/-- The fuel offset made explicit, no fuel hypothesis: the wrapped first parser
+gets `n`, the later sibling `n + 1`; `unrecoverable` and `raw` agree exactly. -/
+theorem C09_wrapped_sibling_offset (R : RunEnv) (n : Nat) (a : G) (ha : CtxFree a) (lx : Lx) (ctx : Ctx)
+    (W : World) (b : G) :
+    run R (n + 2) (.both (.unrecoverable a) b) lx ctx W = run R (n + 2) (.both (.raw a) b) lx ctx W ∧
+    ∀ v lx1 W1, run R n a lx ctx W = (.ok v lx1, W1) →
+      run R (n + 2) (.both (.unrecoverable a) b) lx ctx W = thenWith (.pair v) (run R (n + 1) b lx1 ctx W1) ∧
+      run R (n + 1) (.both a b) lx ctx W = thenWith (.pair v) (run R n b lx1 ctx W1) := by
+  have hu := Transparent.unrecoverable_eq R n a ha lx ctx W
+  have hr := Transparent.raw_eq R n a ha lx ctx W
+  refine ⟨(Transparent.seq_congr R (n + 1) _ _ lx ctx W (hu.trans hr.symm) b b).1, fun v lx1 W1 h => ⟨?_, ?_⟩⟩
+  · exact Transparent.both_factor R (n + 1) _ b lx lx1 ctx W W1 v (hu.trans h)
+  · exact Transparent.both_factor R n a b lx lx1 ctx W W1 v h
+
+/-- **`maybe`.**  `maybe a` runs `a` without the sink.  If that succeeds, `maybe a`
+returns the same lexer and world (value wrapped in `some`) and the later
+sibling of a `both` runs from them under the combinator's own context (sink
+included).  If it fails, `maybe a` succeeds with `none` and returns the ORIGINAL
+lexer (cursor, filter, buffer: the very value it was given) and the world left
+by the failed attempt, whose sink log is the one before (probe log, recovery
+flags and registered closures may have changed); the later sibling runs from
+these.  For context-insensitive `a` the sink-less run is the run under the
+combinator's context. -/
+theorem C09_maybe_transparent (R : RunEnv) (n : Nat) (a : G) (lx : Lx) (ctx : Ctx) (W : World) :
+    (∀ v lx1 W1, run R n a lx ctx.withoutSink W = (.ok v lx1, W1) →
+      run R (n + 1) (.maybe a) lx ctx W = (.ok (.some v) lx1, W1) ∧
+      ∀ b, run R (n + 2) (.both (.maybe a) b) lx ctx W = thenWith (.pair (.some v)) (run R (n + 1) b lx1 ctx W1)) ∧
+    (∀ e W1, run R n a lx ctx.withoutSink W = (.err e, W1) →
+      run R (n + 1) (.maybe a) lx ctx W = (.ok .none lx, W1) ∧ W1.log = W.log ∧
+      ∀ b, run R (n + 2) (.both (.maybe a) b) lx ctx W = thenWith (.pair .none) (run R (n + 1) b lx ctx W1)) ∧
+    (CtxFree a → run R n a lx ctx.withoutSink W = run R n a lx ctx W) := by
+  refine ⟨fun v lx1 W1 h => ?_, fun e W1 h => ?_, fun ha => Transparent.run_ctxFree R n a ha lx _ _ W⟩
+  · have h1 := Transparent.maybe_ok R n a lx lx1 ctx W W1 v h
+    exact ⟨h1, fun b => Transparent.both_factor R (n + 1) _ b lx lx1 ctx W W1 _ h1⟩
+  · have h1 := Transparent.maybe_err R n a lx ctx W W1 e h
+    exact ⟨h1.1, h1.2, fun b => Transparent.both_factor R (n + 1) _ b lx lx ctx W W1 _ h1.1⟩
+
+/-- `maybe`, all outcomes (a panic or exhausted fuel of `a` is passed on). -/
+theorem C09_maybe_run (R : RunEnv) (n : Nat) (a : G) (lx : Lx) (ctx : Ctx) (W : World) :
+    run R (n + 1) (.maybe a) lx ctx W =
+      match run R n a lx ctx.withoutSink W with
+      | (.ok v lx1, W1) => (.ok (.some v) lx1, W1)
+      | (.err _, W1) => (.ok .none lx, W1)
+      | r => r :=
+  Transparent.maybe_run R n a lx ctx W
+
+/-- The naive reading "if `a` succeeds under the combinator's context then
+`maybe a` returns the same lexer and world" — FALSE for context-sensitive `a`:
+`a` is run without the sink, so a `recover` inside it hands its error back
+(and `maybe` returns `none` and the original lexer) where `a` alone would have
+reported the error and recovered; a `probe` reports differently. -/
+def C09_maybe_naive_statement : Prop :=
+  ∀ (R : RunEnv) (n : Nat) (a : G) (lx lx1 : Lx) (ctx : Ctx) (W W1 : World) (v : Val),
+    run R n a lx ctx W = (.ok v lx1, W1) → run R (n + 1) (.maybe a) lx ctx W = (.ok (.some v) lx1, W1)
+
+/-- Witness: `a = probe 0` under a context with a sink (any lexer). -/
+theorem C09_maybe_naive_statement_false : ¬ C09_maybe_naive_statement := by
+  intro h
+  let R : RunEnv := ⟨BracketRefine.Witness.tabEnv [], []⟩
+  have h1 := h R 1 (.probe 0) default default ⟨true, [], false⟩ World.init
+    (run R 1 (.probe 0) default ⟨true, [], false⟩ World.init).2 .unit (by simp [run, sendError])
+  have h2 := congrArg (fun r => r.2.log.length) h1
+  simp [run, sendError, Ctx.withoutSink, World.init] at h2
+
+/-- The corrected statement for arbitrary `a`: under a sink-less context, or for
+context-insensitive `a`, success of `a` under the combinator's context is
+success of `maybe a` with the same lexer and world. -/
+theorem C09_maybe_success_same (R : RunEnv) (n : Nat) (a : G) (lx lx1 : Lx) (ctx : Ctx) (W W1 : World) (v : Val)
+    (hc : CtxFree a ∨ ctx.sink = false)
+    (h : run R n a lx ctx W = (.ok v lx1, W1)) : run R (n + 1) (.maybe a) lx ctx W = (.ok (.some v) lx1, W1) := by
+  apply Transparent.maybe_ok
+  rcases hc with ha | hs
+  · rw [Transparent.run_ctxFree R n a ha lx _ ctx W, h]
+  · rw [Transparent.withoutSink_of_nosink ctx hs, h]
+
+/-- **Filter scopes, all outcomes.**  `filter_with k a` / `unfiltered a` run `a`
+on a copy of the lexer with the filter replaced; on success the filter of the
+caller's lexer is re-installed on the returned lexer, any other outcome (error,
+panic) is passed on unchanged — an error carries no lexer, so nothing of the
+re-filtered lexer escapes. -/
+theorem C09_filter_scope (R : RunEnv) (n : Nat) (k : Nat) (a : G) (lx : Lx) (ctx : Ctx) (W : World) :
+    (run R (n + 1) (.filterWith k a) lx ctx W =
+      match run R n a (lx.setFilter R.E (some k)).2 ctx W with
+      | (.ok v lx2, W2) => (.ok v (lx2.setFilter R.E lx.filter).2, W2)
+      | r => r) ∧
+    (run R (n + 1) (.unfiltered a) lx ctx W =
+      match run R n a (lx.setFilter R.E none).2 ctx W with
+      | (.ok v lx2, W2) => (.ok v (lx2.setFilter R.E lx.filter).2, W2)
+      | r => r) :=
+  ⟨Transparent.filterWith_run R n k a lx ctx W, Transparent.unfiltered_run R n a lx ctx W⟩
+
+/-- **Filter scopes, failure.**  When the wrapped parser fails, the scope fails
+with the same error and world, and an alternative sibling (`either`) is run from
+the caller's own lexer value `lx` — filter, cursor and buffer untouched — under
+the same context. -/
+theorem C09_filter_scope_failure (R : RunEnv) (n : Nat) (k : Nat) (a b : G) (lx : Lx) (ctx : Ctx) (W W1 : World)
+    (e : PErr) :
+    (run R n a (lx.setFilter R.E (some k)).2 ctx W = (.err e, W1) →
+      run R (n + 1) (.filterWith k a) lx ctx W = (.err e, W1) ∧
+      run R (n + 2) (.either (.filterWith k a) b) lx ctx W = run R (n + 1) b lx ctx W1) ∧
+    (run R n a (lx.setFilter R.E none).2 ctx W = (.err e, W1) →
+      run R (n + 1) (.unfiltered a) lx ctx W = (.err e, W1) ∧
+      run R (n + 2) (.either (.unfiltered a) b) lx ctx W = run R (n + 1) b lx ctx W1) := by
+  constructor <;> intro h
+  · have h1 : run R (n + 1) (.filterWith k a) lx ctx W = (.err e, W1) := by
+      rw [Transparent.filterWith_run, h]
+    refine ⟨h1, ?_⟩
+    rw [run]; simp only [h1]
+  · have h1 : run R (n + 1) (.unfiltered a) lx ctx W = (.err e, W1) := by
+      rw [Transparent.unfiltered_run, h]
+    refine ⟨h1, ?_⟩
+    rw [run]; simp only [h1]
+
 /-- Non-vacuity of `C09_filter_frame`: `filter_with` around `empty` succeeds and
 the filter `some 7` of the incoming lexer is back in force although the body
 ran under `some 3`. -/
@@ -119,5 +382,128 @@ example (R : RunEnv) (lx : Lx) (h : lx.filter = some 7) (ctx : Ctx) (W : World) 
     ∃ v lx', (run R 2 (.filterWith 3 .empty) lx ctx W).1 = .ok v lx' ∧ lx'.filter = some 7 := by
   refine ⟨.unit, ((lx.setFilter R.E (some 3)).2.setFilter R.E lx.filter).2, by simp [run], ?_⟩
   rw [LexInv.setFilter_filter, h]
+
+/-! ### non-vacuity and tightness of the consequence clause -/
+section
+
+/-- a parser that fails on every lexer (`pred (k0 ∧ ¬k0)`) -/
+private def failG : G := .pred (.and (.var 0) (.not (.var 0)))
+
+private theorem failG_fails (R : RunEnv) (n : Nat) (lx : Lx) (ctx : Ctx) (W : World) :
+    ∃ e, run R (n + 1) failG lx ctx W = (.err e, W) := by
+  simp only [run, failG, PE.eval, Bool.and_not_self]
+  split <;> exact ⟨_, rfl⟩
+
+/-- a table scanner over the three one-byte tokens `1 2 3`, no filter -/
+private def nvR : RunEnv := ⟨BracketRefine.Witness.tabEnv [1, 2, 3], []⟩
+private def nvLx : Lx := LexIter.fresh 0 ⟨.lf, 4⟩ 3 none
+/-- a context with a sink and one transform -/
+private def nvCtx : Ctx := ⟨true, [7], false⟩
+/-- `recover_option(one(5), before(2))`: context-sensitive -/
+private def nvRec : G := .recover 0 0 (.one 5) (.before 2)
+
+private def kindOf : RRes → Nat
+  | .ok .. => 0 | .err _ => 1 | .panic => 2 | .fuel => 3
+private def cursorOf : RRes → Nat
+  | .ok _ lx => lx.cursor.byte | _ => 0
+
+private theorem nv_one (n : Nat) (ctx : Ctx) (W : World) :
+    run nvR (n + 1) (.one 1) nvLx ctx W = (.ok (.tok ⟨1, 0⟩) (nvLx.next nvR.E).2, W) := by
+  have h : (nvLx.next nvR.E).1 = some ⟨1, 0⟩ := by decide +kernel
+  simp only [run]
+  rcases hx : nvLx.next nvR.E with ⟨o, l⟩
+  rw [hx] at h
+  simp only at h
+  subst h
+  simp
+
+/-- the syntactic classes are inhabited as intended -/
+example : CtxFree (.both (.one 1) (.maybe nvRec)) ∧ CtxFree (.stabilize (.ctxPushed 3 (.raw (.seq [1, 2])))) ∧
+    ¬ CtxFree nvRec ∧ SinkOnly nvRec ∧ ¬ SinkOnly (.probe 0) := by decide
+
+/-- `C09_sibling_independent`, hypotheses satisfiable for every environment:
+`empty`, `unrecoverable empty`, `raw empty`, `maybe empty` all return the lexer
+and world they were given. -/
+example (R : RunEnv) (lx : Lx) (ctx : Ctx) (W : World) :
+    run R 2 .empty lx ctx W = (.ok .unit lx, W) ∧ run R 2 (.unrecoverable .empty) lx ctx W = (.ok .unit lx, W) ∧
+    run R 2 (.raw .empty) lx ctx W = (.ok .unit lx, W) ∧ run R 2 (.maybe .empty) lx ctx W = (.ok (.some .unit) lx, W) := by
+  simp [run]
+
+/-- …and on the table scanner, with a token consumed: `one 1` and `raw (one 1)`
+return the same lexer and world under the sink context, so (by
+`C09_sibling_independent`) a context-sensitive later sibling `nvRec` does the
+same after both. -/
+example (W : World) :
+    run nvR 3 (.both (.one 1) nvRec) nvLx nvCtx W = run nvR 3 (.both (.raw (.one 1)) nvRec) nvLx nvCtx W := by
+  have h := nv_one 1 nvCtx W
+  have h' : run nvR 2 (.raw (.one 1)) nvLx nvCtx W = (.ok (.tok ⟨1, 0⟩) (nvLx.next nvR.E).2, W) := by
+    rw [run]; exact nv_one 0 nvCtx.rawCtx W
+  have := C09_sibling_independent nvR 2 (.one 1) (.raw (.one 1)) nvRec .empty nvLx nvLx _ nvCtx W W W _ _ h h'
+  rw [this.1.1, this.1.2]
+
+/-- `C09_wrapped_sibling_same`, hypotheses satisfiable (`one 1` is
+context-insensitive and succeeds with fuel 1), later sibling context-sensitive. -/
+example (W : World) (m : Nat) (hm : 2 ≤ m) :
+    run nvR (m + 1) (.both (.unrecoverable (.one 1)) nvRec) nvLx nvCtx W =
+      run nvR (m + 1) (.both (.one 1) nvRec) nvLx nvCtx W :=
+  (C09_wrapped_sibling_same nvR 1 (.one 1) rfl nvLx nvCtx W (by rw [nv_one]; simp) nvRec .empty m hm _
+    (Or.inl rfl)).1
+
+/-- …and the later sibling really consults the context there: it reports to the
+sink with the transform `7` applied, and recovers. -/
+example : (run nvR 6 (.both (.unrecoverable (.one 1)) nvRec) nvLx nvCtx World.init).2.log.map (·.trail) = [[7]] ∧
+    kindOf (run nvR 6 (.both (.unrecoverable (.one 1)) nvRec) nvLx nvCtx World.init).1 = 0 := by decide +kernel
+
+/-- Tightness: for the context-sensitive `nvRec` the wrappers are NOT
+transparent under a sink.  Alone it reports (trail `[7]`) and recovers to byte 1;
+`unrecoverable` makes it fail without a report; `raw` makes it report with the
+empty trail. -/
+example :
+    (kindOf (run nvR 4 nvRec nvLx nvCtx World.init).1 = 0 ∧ cursorOf (run nvR 4 nvRec nvLx nvCtx World.init).1 = 1 ∧
+      (run nvR 4 nvRec nvLx nvCtx World.init).2.log.map (·.trail) = [[7]]) ∧
+    (kindOf (run nvR 5 (.unrecoverable nvRec) nvLx nvCtx World.init).1 = 1 ∧
+      (run nvR 5 (.unrecoverable nvRec) nvLx nvCtx World.init).2.log = []) ∧
+    (kindOf (run nvR 5 (.raw nvRec) nvLx nvCtx World.init).1 = 0 ∧
+      (run nvR 5 (.raw nvRec) nvLx nvCtx World.init).2.log.map (·.trail) = [[]]) := by decide +kernel
+
+/-- Tightness for `probe` (any environment): under a sink `probe` reports,
+under `unrecoverable` it does not. -/
+example (R : RunEnv) (lx : Lx) (W : World) :
+    (run R 1 (.probe 0) lx ⟨true, [], false⟩ W).2.log = W.log ++ [mkErr (.probe 0)] ∧
+    (run R 2 (.unrecoverable (.probe 0)) lx ⟨true, [], false⟩ W).2.log = W.log := by
+  simp [run, sendError, Ctx.withoutSink, Ctx.apply, mkErr]
+
+/-- `C09_maybe_transparent`: both hypotheses are satisfiable (any environment). -/
+example (R : RunEnv) (lx : Lx) (ctx : Ctx) (W : World) :
+    (∃ v lx1 W1, run R 1 .empty lx ctx.withoutSink W = (.ok v lx1, W1)) ∧
+    (∃ e W1, run R 1 failG lx ctx.withoutSink W = (.err e, W1)) :=
+  ⟨⟨.unit, lx, W, by simp [run]⟩, by obtain ⟨e, h⟩ := failG_fails R 0 lx ctx.withoutSink W; exact ⟨e, W, h⟩⟩
+
+/-- …so after a failed `maybe` the later sibling starts from the original lexer:
+`both (maybe failG) (probe 1)` shows the lexer it was given to the probe. -/
+example (R : RunEnv) (lx : Lx) (ctx : Ctx) (W : World) :
+    run R 3 (.both (.maybe failG) (.probe 1)) lx ctx W = thenWith (.pair .none) (run R 2 (.probe 1) lx ctx W) := by
+  obtain ⟨e, h⟩ := failG_fails R 0 lx ctx.withoutSink W
+  exact ((C09_maybe_transparent R 1 failG lx ctx W).2.1 e W h).2.2 _
+
+/-- The recover witness against the naive `maybe` statement, on the table
+scanner: `nvRec` alone succeeds at byte 1 with one report; `maybe nvRec`
+succeeds at byte 0 (the original lexer) with none. -/
+example :
+    (kindOf (run nvR 4 nvRec nvLx nvCtx World.init).1 = 0 ∧ cursorOf (run nvR 4 nvRec nvLx nvCtx World.init).1 = 1 ∧
+      (run nvR 4 nvRec nvLx nvCtx World.init).2.log.length = 1) ∧
+    (kindOf (run nvR 5 (.maybe nvRec) nvLx nvCtx World.init).1 = 0 ∧
+      cursorOf (run nvR 5 (.maybe nvRec) nvLx nvCtx World.init).1 = 0 ∧
+      (run nvR 5 (.maybe nvRec) nvLx nvCtx World.init).2.log.length = 0 ∧
+      (run nvR 5 (.maybe nvRec) nvLx nvCtx World.init).2.specs.length = 1) := by decide +kernel
+
+/-- `C09_filter_scope_failure`: hypotheses satisfiable (any environment). -/
+example (R : RunEnv) (lx : Lx) (ctx : Ctx) (W : World) :
+    ∃ e, run R 1 failG (lx.setFilter R.E (some 3)).2 ctx W = (.err e, W) ∧
+      run R 3 (.either (.filterWith 3 failG) (.probe 1)) lx ctx W = run R 2 (.probe 1) lx ctx W := by
+  obtain ⟨e, h⟩ := failG_fails R 0 (lx.setFilter R.E (some 3)).2 ctx W
+  exact ⟨e, h, ((C09_filter_scope_failure R 1 3 failG (.probe 1) lx ctx W W e).1 h).2⟩
+
+end
 
 end Tephra.Props
